@@ -96,7 +96,11 @@ NEEDS = {
 
 
 def main():
-    conf = json.load(open(os.path.join(VERIF, ".build", "confirm_results.json"))) if os.path.exists(os.path.join(VERIF, ".build", "confirm_results.json")) else {}
+    conf = {}
+    for f in sorted(glob.glob(os.path.join(VERIF, ".build", "confirm_results*.json"))):
+        for k, v in json.load(open(f)).items():
+            if k not in conf or v.get("confirmed") or not conf[k].get("tests"):
+                conf[k] = v
     verdict = {}           # change -> {check: latest verdict}
     mr = os.path.join(VERIF, ".build", "mutant_results.txt")
     if os.path.exists(mr):
